@@ -869,7 +869,8 @@ class TermCanvas(Canvas):
 
                 self.push_char(char, x, y)
 
-                self.is_rotten_cursor = False
+                # on a one-column grid the cell just written is the right margin again
+                self.is_rotten_cursor = x >= self.width
         else:
             if x + 1 < self.width:
                 x += 1
